@@ -2,7 +2,7 @@
 //
 // Every multiset of at most 3 (thorough 4) documents from an 8-document
 // alphabet (single-valued, multi-valued and missing numeric / date / keyword
-// fields) is indexed; 4 queries x 25 aggregation trees x every search setting
+// fields) is indexed; 4 queries x 39 aggregation trees x every search setting
 // (n, from in {0,1,2,5}, 3 sort orders, After / Before keys) are run through
 // Reader.Search and every aggregation result is compared with a direct
 // computation over the documents the query selects.
@@ -10,6 +10,13 @@
 // Most trees reference every field once (one aggregation per field, sorting by
 // a field no aggregation reads); a few trees deliberately reference a field
 // several times (several metrics of one field, sorting by an aggregated field).
+// Fourteen trees use the filtered sources of search/aggregations/filter.go
+// (FilterText / FilterNumeric / FilterDate) with predicates that reject a value
+// sorting before an accepted value of the same document, with aggregations over
+// the UNFILTERED same field nested inside or next to the filtered one.
+//
+// A second enumeration runs searches while one segment's file is unreadable:
+// a search may fail, but if it returns normally it has to be exact.
 package main
 
 import (
@@ -19,8 +26,10 @@ import (
 	"log"
 	"math"
 	"os"
+	"path/filepath"
 	"runtime/debug"
 	"sort"
+	"strconv"
 	"strings"
 	"time"
 
@@ -28,9 +37,12 @@ import (
 
 	"github.com/axiomhq/hyperloglog"
 	"github.com/blugelabs/bluge"
+	"github.com/blugelabs/bluge/index"
+	"github.com/blugelabs/bluge/index/lock"
 	"github.com/blugelabs/bluge/search"
 	"github.com/blugelabs/bluge/search/aggregations"
 	"github.com/blugelabs/bluge/verifmc"
+	segment "github.com/blugelabs/bluge_segment_api"
 
 	"verif/checkmain"
 	"verif/crashfs"
@@ -136,6 +148,27 @@ func nLayouts(param string) int {
 // layout 0: two segments split in the middle (one when fewer than 2 documents);
 // layout 1: one segment; layout 2: every document in its own segment
 func buildIndex(list []int, layout int) (*bluge.Reader, string) {
+	dir, fail := buildDir(list, layout)
+	if fail != "" {
+		return nil, fail
+	}
+	r, err := bluge.OpenReader(harness.Config(dir, harness.Opts{}))
+	if err != nil {
+		return nil, "open reader: " + err.Error()
+	}
+	return r, ""
+}
+
+// buildFiles returns the files of the index
+func buildFiles(list []int, layout int) (map[string][]byte, string) {
+	dir, fail := buildDir(list, layout)
+	if fail != "" {
+		return nil, fail
+	}
+	return dir.Snapshot(), ""
+}
+
+func buildDir(list []int, layout int) (*crashfs.Dir, string) {
 	dir := crashfs.New()
 	dir.Points = false
 	var fail string
@@ -195,11 +228,7 @@ func buildIndex(list []int, layout int) (*bluge.Reader, string) {
 	if fail != "" {
 		return nil, "building the index failed: " + fail
 	}
-	r, err := bluge.OpenReader(harness.Config(dir, harness.Opts{}))
-	if err != nil {
-		return nil, "open reader: " + err.Error()
-	}
-	return r, ""
+	return dir, ""
 }
 
 // ---------------------------------------------------------------- queries
@@ -253,9 +282,13 @@ type metric struct {
 	ref func(docs []*adoc) (v float64, defined bool)
 	// empty is what the calculator shows when it never saw a value
 	empty float64
-	kind  int // 0 plain metric, 1 cardinality, 2 quantiles
+	kind  int // 0 plain metric, 1 cardinality, 2 quantiles, 3 a nested/sibling bucket aggregation
 	field string
 	scal  bool // the value scales with the number of times each value is seen
+	// qvals: the values the quantile sketch is fed (kind 2; nil = every value of n)
+	qvals func(docs []*adoc) []float64
+	// buckets: kind 3, the expected bucket counts by direct counting (bucket name -> documents)
+	buckets func(docs []*adoc) map[string]int
 }
 
 func nVals(docs []*adoc) []float64 {
@@ -371,6 +404,210 @@ func allMetrics() []metric {
 	return out
 }
 
+// ---------------------------------------------------------------- filtered sources (search/aggregations/filter.go)
+
+// Every predicate rejects, for some multi-valued document of the alphabet, a
+// value that sorts BEFORE an accepted value of the same document (A3: k=[a,b],
+// n=[1,5], d=[2001,2003]; A5: k=[b,c], n=[2,3], d=[2001,2002]), and its
+// counterpart rejects the later one.
+type kPred struct {
+	name string
+	ok   func(string) bool
+}
+type nPred struct {
+	name string
+	ok   func(float64) bool
+}
+type dPred struct {
+	name string
+	ok   func(time.Time) bool
+}
+
+var (
+	kNotA = &kPred{"not-a", func(s string) bool { return s != "a" }}
+	kNotB = &kPred{"not-b", func(s string) bool { return s != "b" }}
+	nLow  = &nPred{"not-1-or-2", func(v float64) bool { return v != 1 && v != 2 }}
+	nHigh = &nPred{"not-3-or-5", func(v float64) bool { return v != 3 && v != 5 }}
+	dLow  = &dPred{"not-2001", func(t time.Time) bool { return t.Year() != 2001 }}
+	dHigh = &dPred{"not-2002-or-2003", func(t time.Time) bool { return t.Year() != 2002 && t.Year() != 2003 }}
+)
+
+func kSource(p *kPred) search.TextValuesSource {
+	if p == nil {
+		return search.Field("k")
+	}
+	return aggregations.FilterText(search.Field("k"), func(b []byte) bool { return p.ok(string(b)) })
+}
+
+func nSource(p *nPred) search.NumericValuesSource {
+	if p == nil {
+		return search.Field("n")
+	}
+	return aggregations.FilterNumeric(search.Field("n"), p.ok)
+}
+
+func dSource(p *dPred) search.DateValuesSource {
+	if p == nil {
+		return search.Field("d")
+	}
+	return aggregations.FilterDate(search.Field("d"), p.ok)
+}
+
+func kOf(d *adoc, p *kPred) []string {
+	if p == nil {
+		return d.k
+	}
+	var out []string
+	for _, v := range d.k {
+		if p.ok(v) {
+			out = append(out, v)
+		}
+	}
+	return out
+}
+
+func nOf(d *adoc, p *nPred) []float64 {
+	if p == nil {
+		return d.n
+	}
+	var out []float64
+	for _, v := range d.n {
+		if p.ok(v) {
+			out = append(out, v)
+		}
+	}
+	return out
+}
+
+func dOf(d *adoc, p *dPred) []time.Time {
+	if p == nil {
+		return d.d
+	}
+	var out []time.Time
+	for _, v := range d.d {
+		if p.ok(v) {
+			out = append(out, v)
+		}
+	}
+	return out
+}
+
+// every numeric metric over FilterNumeric(n, p)
+func filteredNumMetrics(p *nPred) []metric {
+	vals := func(docs []*adoc) []float64 {
+		var v []float64
+		for _, d := range docs {
+			v = append(v, nOf(d, p)...)
+		}
+		return v
+	}
+	sfx := "_n[" + p.name + "]"
+	return []metric{
+		{name: "sum" + sfx, field: "n", scal: true, mk: func() search.Aggregation { return aggregations.Sum(nSource(p)) },
+			ref: func(d []*adoc) (float64, bool) { return sumOf(vals(d)), true }, empty: 0},
+		{name: "min" + sfx, field: "n", mk: func() search.Aggregation { return aggregations.Min(nSource(p)) },
+			ref: func(d []*adoc) (float64, bool) { v := vals(d); return minOf(v), len(v) > 0 }, empty: math.Inf(1)},
+		{name: "max" + sfx, field: "n", mk: func() search.Aggregation { return aggregations.Max(nSource(p)) },
+			ref: func(d []*adoc) (float64, bool) { v := vals(d); return maxOf(v), len(v) > 0 }, empty: math.Inf(-1)},
+		{name: "avg" + sfx, field: "n", mk: func() search.Aggregation { return aggregations.Avg(nSource(p)) },
+			ref: func(d []*adoc) (float64, bool) { v := vals(d); return sumOf(v) / float64(len(v)), len(v) > 0 }, empty: math.NaN()},
+		{name: "wavg" + sfx + "_by_m", field: "m", mk: func() search.Aggregation {
+			return aggregations.WeightedAvg(nSource(p), search.Field("m"))
+		}, ref: func(docs []*adoc) (float64, bool) {
+			var num, den float64
+			cnt := 0
+			for _, d := range docs {
+				for _, v := range nOf(d, p) {
+					num += v * d.m
+					den += d.m
+					cnt++
+				}
+			}
+			return num / den, cnt > 0 && den != 0
+		}, empty: math.NaN()},
+		{name: "quant" + sfx, field: "n", kind: 2, qvals: vals, mk: func() search.Aggregation { return aggregations.Quantiles(nSource(p)) }},
+	}
+}
+
+// cardinality over FilterText(k, p)
+func filteredCard(p *kPred) metric {
+	return metric{name: "card_k[" + p.name + "]", field: "k", kind: 1, mk: func() search.Aggregation { return aggregations.Cardinality(kSource(p)) },
+		ref: func(docs []*adoc) (float64, bool) {
+			sk := hyperloglog.New16()
+			for _, d := range docs {
+				ks := append([]string(nil), kOf(d, p)...)
+				sort.Strings(ks)
+				for _, k := range ks {
+					sk.Insert([]byte(k))
+				}
+			}
+			return float64(sk.Estimate()), true
+		}, empty: 0}
+}
+
+// bucket aggregations over the UNFILTERED fields, used nested inside (or next
+// to) a filtered aggregation: the bucket counts must equal direct counting
+// over the documents in scope, whatever the filtered aggregation did before
+var nestedTermsK = metric{name: "terms_k", field: "k", kind: 3,
+	mk: func() search.Aggregation { return aggregations.NewTermsAggregation(search.Field("k"), 10) },
+	buckets: func(docs []*adoc) map[string]int {
+		out := map[string]int{}
+		for _, d := range docs {
+			for _, k := range d.k {
+				out[k]++
+			}
+		}
+		return out
+	}}
+
+var nestedRangesN = metric{name: "ranges_n", field: "n", kind: 3,
+	mk: func() search.Aggregation {
+		ra := aggregations.Ranges(search.Field("n"))
+		for _, r := range narrowRanges {
+			ra.AddRange(aggregations.NamedRange(r.name, r.lo, r.hi))
+		}
+		return ra
+	},
+	buckets: func(docs []*adoc) map[string]int {
+		out := map[string]int{}
+		for _, r := range narrowRanges {
+			out[r.name] = 0
+			for _, d := range docs {
+				for _, v := range d.n {
+					if inRange(v, r) {
+						out[r.name]++
+						break
+					}
+				}
+			}
+		}
+		return out
+	}}
+
+var nestedRangesD = metric{name: "dranges_d", field: "d", kind: 3,
+	mk: func() search.Aggregation {
+		da := aggregations.DateRanges(search.Field("d"))
+		for _, r := range narrowDates {
+			da.AddRange(aggregations.NewNamedDateRange(r.name, r.lo, r.hi))
+		}
+		return da
+	},
+	buckets: func(docs []*adoc) map[string]int {
+		out := map[string]int{}
+		for _, r := range narrowDates {
+			out[r.name] = 0
+			for _, d := range docs {
+				for _, v := range d.d {
+					if inDRange(v, r) {
+						out[r.name]++
+						break
+					}
+				}
+			}
+		}
+		return out
+	}}
+
 func fnum(v float64) string {
 	if math.IsNaN(v) {
 		return "NaN"
@@ -403,6 +640,9 @@ func checkMetrics(b *search.Bucket, path string, ms []metric, docs []*adoc, cano
 				return &finding{msg: fmt.Sprintf("%s%s: unexpected calculator type %T", path, m.name, calc)}
 			}
 			vals := nVals(docs)
+			if m.qvals != nil {
+				vals = m.qvals(docs)
+			}
 			lo, hi := minOf(vals), maxOf(vals)
 			prev := math.Inf(-1)
 			fmt.Fprintf(canon, "%s%s=[", path, m.name)
@@ -423,11 +663,46 @@ func checkMetrics(b *search.Bucket, path string, ms []metric, docs []*adoc, cano
 					return &finding{class: cl, field: "n", msg: fmt.Sprintf("%s%s: quantile %v is %v, outside the matched values %v (min %v, max %v)", path, m.name, rk, q, vals, lo, hi)}
 				}
 				if q < prev {
-					return &finding{class: "quantile-decreasing-in-rank", field: "n", msg: fmt.Sprintf("%s%s: quantile %v is %v, smaller than the quantile of the previous rank (%v); values %v", path, m.name, rk, q, prev, vals)}
+					cl := "quantile-decreasing-in-rank"
+					if prev-q <= 1e-12*math.Max(math.Abs(lo), math.Abs(hi)) {
+						cl = "quantile-decreasing-in-rank-by-rounding" // a few units in the last place
+					}
+					return &finding{class: cl, field: "n", msg: fmt.Sprintf("%s%s: quantile %v is %v, smaller than the quantile of the previous rank (%v); values %v", path, m.name, rk, q, prev, vals)}
 				}
 				prev = q
 			}
 			canon.WriteString("] ")
+			continue
+		}
+		if m.kind == 3 {
+			bc, ok := calc.(search.BucketCalculator)
+			if !ok {
+				return &finding{msg: fmt.Sprintf("%s%s: unexpected calculator type %T", path, m.name, calc)}
+			}
+			want := m.buckets(docs)
+			got := map[string]int{}
+			var parts []string
+			for _, nb := range bc.Buckets() {
+				c, ok := bucketCount(nb)
+				if !ok {
+					return &finding{msg: fmt.Sprintf("%s%s/%s: no count", path, m.name, nb.Name())}
+				}
+				if _, dup := got[nb.Name()]; dup {
+					return &finding{msg: fmt.Sprintf("%s%s: bucket %q returned twice", path, m.name, nb.Name())}
+				}
+				got[nb.Name()] = int(c)
+				parts = append(parts, fmt.Sprintf("%s:%v", nb.Name(), c))
+			}
+			sort.Strings(parts)
+			fmt.Fprintf(canon, "%s%s={%s} ", path, m.name, strings.Join(parts, " "))
+			var wparts []string
+			for k, v := range want {
+				wparts = append(wparts, fmt.Sprintf("%s:%d", k, v))
+			}
+			sort.Strings(wparts)
+			if strings.Join(parts, " ") != strings.Join(wparts, " ") {
+				return &finding{field: m.field, msg: fmt.Sprintf("%s%s over the unfiltered field %s has buckets {%s}, direct counting over the %d documents in scope gives {%s}", path, m.name, m.field, strings.Join(parts, " "), len(docs), strings.Join(wparts, " "))}
+			}
 			continue
 		}
 		mc, ok := calc.(search.MetricCalculator)
@@ -481,6 +756,16 @@ type tree struct {
 	drngs   []drng
 	// sortField: the field of the "sort by a field" settings; "s" is read by no aggregation
 	sortField string
+	// filters on the source of the bucket aggregation (nil = the plain field)
+	kp *kPred
+	np *nPred
+	dp *dPred
+	// siblings: aggregations over the same field next to each other; the order in
+	// which they consume a hit is not fixed, so the key of a failure leaves the
+	// search setting out (any setting may be the one that shows it)
+	siblings bool
+	// sibD: also an unfiltered date range aggregation at top level
+	sibD bool
 }
 
 func ms(m ...metric) []metric { return m }
@@ -519,6 +804,23 @@ var trees = []tree{
 	{name: "ranges(n),sorted-by-n", kind: 2, rngs: narrowRanges, sortField: "n"},
 	{name: "terms(k,10)>cardinality(k)", kind: 1, sizes: []int{10}, metrics: ms(metricCard)},
 	{name: "terms(k,1)+terms(k,2)+terms(k,10)", kind: 1, sizes: []int{1, 2, 10}},
+	// --- filtered sources; nested aggregations read the UNFILTERED same field
+	{name: "terms(filter(k,not-a),10)>cardinality(k)+terms(k,10)", kind: 1, sizes: []int{10}, kp: kNotA, metrics: ms(metricCard, nestedTermsK)},
+	{name: "terms(filter(k,not-b),10)>cardinality(k)+terms(k,10)", kind: 1, sizes: []int{10}, kp: kNotB, metrics: ms(metricCard, nestedTermsK)},
+	{name: "terms(filter(k,not-a),1)>sum(n)+max(m)", kind: 1, sizes: []int{1}, kp: kNotA, metrics: ms(sumN, maxM)},
+	{name: "cardinality(filter(k,not-a))", kind: 0, metrics: ms(filteredCard(kNotA))},
+	{name: "cardinality(filter(k,not-b))", kind: 0, metrics: ms(filteredCard(kNotB))},
+	{name: "siblings:cardinality(filter(k,not-a))+cardinality(filter(k,not-b))+cardinality(k)+terms(k,10)", kind: 0, siblings: true,
+		metrics: ms(filteredCard(kNotA), filteredCard(kNotB), metricCard, nestedTermsK)},
+	{name: "metrics(filter(n,not-1-or-2))", kind: 0, metrics: filteredNumMetrics(nLow)},
+	{name: "metrics(filter(n,not-3-or-5))", kind: 0, metrics: filteredNumMetrics(nHigh)},
+	{name: "siblings:sum(filter(n,not-1-or-2))+sum(filter(n,not-3-or-5))+sum(n)+min(n)+ranges(n)", kind: 0, siblings: true,
+		metrics: ms(filteredNumMetrics(nLow)[0], filteredNumMetrics(nHigh)[0], sumN, minN, nestedRangesN)},
+	{name: "ranges(filter(n,not-1-or-2))>metrics-of-n+ranges(n)", kind: 2, rngs: narrowRanges, np: nLow, metrics: ms(sumN, minN, maxN, avgN, nestedRangesN)},
+	{name: "ranges(filter(n,not-3-or-5))>metrics-of-n+ranges(n)", kind: 2, rngs: narrowRanges, np: nHigh, metrics: ms(sumN, minN, maxN, avgN, nestedRangesN)},
+	{name: "dateranges(filter(d,not-2001))>dateranges(d)+sum(n)+cardinality(k)", kind: 3, drngs: narrowDates, dp: dLow, metrics: ms(nestedRangesD, sumN, metricCard)},
+	{name: "dateranges(filter(d,not-2002-or-2003))>dateranges(d)+sum(n)+cardinality(k)", kind: 3, drngs: narrowDates, dp: dHigh, metrics: ms(nestedRangesD, sumN, metricCard)},
+	{name: "siblings:dateranges(filter(d,not-2001))+dateranges(d)", kind: 3, drngs: narrowDates, dp: dLow, siblings: true, metrics: nil, sibD: true},
 }
 
 func addTree(req *bluge.TopNSearch, t *tree) {
@@ -532,14 +834,14 @@ func addTree(req *bluge.TopNSearch, t *tree) {
 		}
 	case 1:
 		for _, sz := range t.sizes {
-			ta := aggregations.NewTermsAggregation(search.Field("k"), sz)
+			ta := aggregations.NewTermsAggregation(kSource(t.kp), sz)
 			for _, m := range t.metrics {
 				ta.AddAggregation(m.name, m.mk())
 			}
 			req.AddAggregation(fmt.Sprintf("terms%d", sz), ta)
 		}
 	case 2:
-		ra := aggregations.Ranges(search.Field("n"))
+		ra := aggregations.Ranges(nSource(t.np))
 		for _, r := range t.rngs {
 			ra.AddRange(aggregations.NamedRange(r.name, r.lo, r.hi))
 		}
@@ -548,7 +850,7 @@ func addTree(req *bluge.TopNSearch, t *tree) {
 		}
 		req.AddAggregation("ranges", ra)
 	case 3:
-		da := aggregations.DateRanges(search.Field("d"))
+		da := aggregations.DateRanges(dSource(t.dp))
 		for _, r := range t.drngs {
 			da.AddRange(aggregations.NewNamedDateRange(r.name, r.lo, r.hi))
 		}
@@ -556,6 +858,9 @@ func addTree(req *bluge.TopNSearch, t *tree) {
 			da.AddAggregation(m.name, m.mk())
 		}
 		req.AddAggregation("dranges", da)
+		if t.sibD {
+			req.AddAggregation(nestedRangesD.name, nestedRangesD.mk())
+		}
 	}
 }
 
@@ -600,10 +905,11 @@ func checkTree(root *search.Bucket, t *tree, docs []*adoc, maxScore float64, can
 		byTerm := map[string][]*adoc{}
 		multi := false
 		for _, d := range docs {
-			if len(d.k) > 1 {
+			ks := kOf(d, t.kp)
+			if len(ks) > 1 {
 				multi = true
 			}
-			for _, k := range d.k {
+			for _, k := range ks {
 				byTerm[k] = append(byTerm[k], d)
 			}
 		}
@@ -690,14 +996,14 @@ func checkTree(root *search.Bucket, t *tree, docs []*adoc, maxScore float64, can
 				hit := 0
 				if t.kind == 2 {
 					rname = t.rngs[i].name
-					for _, v := range d.n {
+					for _, v := range nOf(d, t.np) {
 						if inRange(v, t.rngs[i]) {
 							hit++
 						}
 					}
 				} else {
 					rname = t.drngs[i].name
-					for _, v := range d.d {
+					for _, v := range dOf(d, t.dp) {
 						if inDRange(v, t.drngs[i]) {
 							hit++
 						}
@@ -733,6 +1039,9 @@ func checkTree(root *search.Bucket, t *tree, docs []*adoc, maxScore float64, can
 			if f := checkMetrics(b, rname+"/", t.metrics, in, canon); f != nil {
 				return f
 			}
+		}
+		if t.sibD {
+			return checkMetrics(root, "", ms(nestedRangesD), docs, canon)
 		}
 		return nil
 	}
@@ -957,6 +1266,9 @@ func eval(idx int64, param string) *explore.Result {
 			var canon strings.Builder
 			if f := checkTree(root, t, docs, maxScore, &canon); f != nil {
 				res.Key = skey
+				if t.siblings {
+					res.Key = fmt.Sprintf("%s query=%s", where, queryNames[qi])
+				}
 				refs := references(req)
 				switch {
 				case f.scal && refs[f.field] > 1 && f.got == float64(refs[f.field])*f.want:
@@ -994,6 +1306,211 @@ func eval(idx int64, param string) *explore.Result {
 	return res
 }
 
+// ---------------------------------------------------------------- search under a read fault
+
+// The statement is about the result of a search: a search that returns
+// normally claims aggregations over every match.  When reading a segment fails
+// in the middle of a search the only two sound outcomes are an error, or a
+// result that is nevertheless exact.  The fault is produced with public seams
+// only: the index files are put into a real FileSystemDirectory on tmpfs whose
+// load function is index.LoadMMapNever (plain file reads), and after OpenReader
+// the *os.File of one segment is closed, so every later read of it fails.
+
+var faultTreeNames = []string{"standard+count+sum(n)+cardinality(k)+sum(m)", "terms(k,1)>sum(n)+sum(m)", "ranges(n)>metrics-of-n"}
+
+func treeByName(name string) *tree {
+	for i := range trees {
+		if trees[i].name == name {
+			return &trees[i]
+		}
+	}
+	panic("no tree " + name)
+}
+
+// corpora: every multiset of exactly 2 documents (one segment each) and the
+// 3-document multisets of the first four letters (three segments)
+func faultCorpora() [][]int {
+	var out [][]int
+	for _, c := range multisets(3) {
+		if len(c) == 2 {
+			out = append(out, c)
+		}
+		if len(c) == 3 && c[2] <= 3 {
+			out = append(out, c)
+		}
+	}
+	return out
+}
+
+var faultCorp = faultCorpora()
+
+// one case = (corpus, segment whose file is closed)
+func faultTotal(param string) int64 {
+	var n int64
+	for _, c := range faultCorp {
+		n += int64(len(c))
+	}
+	return n
+}
+
+func faultCase(idx int64) ([]int, int) {
+	for _, c := range faultCorp {
+		if idx < int64(len(c)) {
+			return c, int(idx)
+		}
+		idx -= int64(len(c))
+	}
+	return nil, 0
+}
+
+type segFiles struct{ files []*os.File }
+
+func faultEval(idx int64, param string) (res *explore.Result) {
+	list, victim := faultCase(idx)
+	res = &explore.Result{Counts: map[string]int64{}}
+	where := fmt.Sprintf("read-fault: corpus=%s (one segment per document) closed-segment=%d", corpusString(list), victim)
+	// build in memory, copy the files to a scratch directory on tmpfs
+	mem, fail := buildFiles(list, 2)
+	if fail != "" {
+		res.Failure, res.Key = where+": "+fail, where+" build"
+		return res
+	}
+	path, err := os.MkdirTemp("/dev/shm", "verif-c16-")
+	if err != nil {
+		res.Failure, res.Key = "harness: "+err.Error(), "harness"
+		return res
+	}
+	defer os.RemoveAll(path)
+	for name, b := range mem {
+		if err := os.WriteFile(filepath.Join(path, name), b, 0o600); err != nil {
+			res.Failure, res.Key = "harness: "+err.Error(), "harness"
+			return res
+		}
+	}
+	sf := &segFiles{}
+	cfg := bluge.DefaultConfigWithDirectory(func() index.Directory {
+		d := index.NewFileSystemDirectory(path)
+		d.SetLoadMMapFunc(func(f lock.LockedFile) (*segment.Data, io.Closer, error) {
+			if strings.HasSuffix(f.File().Name(), index.ItemKindSegment) {
+				sf.files = append(sf.files, f.File())
+			}
+			return index.LoadMMapNever(f)
+		})
+		return d
+	})
+	r, err := bluge.OpenReader(cfg)
+	if err != nil {
+		res.Failure, res.Key = where+": open reader: "+err.Error(), where+" open"
+		return res
+	}
+	defer r.Close()
+	if len(sf.files) != len(list) {
+		res.Failure, res.Key = fmt.Sprintf("%s: the reader opened %d segment files, expected %d", where, len(sf.files), len(list)), where+" open"
+		return res
+	}
+	sort.Slice(sf.files, func(i, j int) bool { return sf.files[i].Name() < sf.files[j].Name() })
+	sets := settingsFor(list, "quick")
+	run := func(phase string) bool {
+		for _, tn := range faultTreeNames {
+			t := treeByName(tn)
+			for qi := 0; qi < 3; qi++ {
+				docs := selected(qi, list)
+				maxScore := 0.0
+				if t.std && phase == "healthy" {
+					maxScore = fullMaxScore(r, queryOf(qi, list))
+				}
+				for _, s := range sets {
+					// a sub-grid of the settings: n in {0,2,5} x from in {0,1} x 3 sort orders, After/Before with n=1
+					if (s.mode != 0 && s.n != 1) || (s.mode == 0 && (s.n == 1 || s.from > 1)) {
+						continue
+					}
+					req := request(s, t, queryOf(qi, list))
+					addTree(req, t)
+					var root *search.Bucket
+					var serr error
+					var panicked interface{}
+					func() {
+						defer func() { panicked = recover() }()
+						verifmc.Quiet(func() {
+							it, err := r.Search(bg, req)
+							if err != nil {
+								serr = err
+								return
+							}
+							for {
+								m, err := it.Next()
+								if err != nil {
+									serr = err
+									return
+								}
+								if m == nil {
+									break
+								}
+							}
+							root = it.Aggregations()
+						})
+					}()
+					res.Evals++
+					skey := fmt.Sprintf("%s tree=%s query=%s %s", where, t.name, queryNames[qi], s.describe(t))
+					if panicked != nil {
+						res.Key = skey
+						res.Failure = fmt.Sprintf("%s: the search panicked (%s index): %v", skey, phase, panicked)
+						return false
+					}
+					if serr != nil {
+						if phase == "healthy" {
+							res.Key = skey
+							res.Failure = fmt.Sprintf("%s: the search failed on the intact index: %v", skey, serr)
+							return false
+						}
+						res.Counts["faulted_searches_that_returned_an_error"]++
+						continue
+					}
+					if phase == "faulted" {
+						res.Nontrivial++
+						res.Counts["faulted_searches_that_returned_a_result"]++
+					}
+					var canon strings.Builder
+					mt := *t
+					if phase == "faulted" {
+						mt.std = false // max_score needs a reference search; count is checked below
+					}
+					f := checkTree(root, &mt, docs, maxScore, &canon)
+					if f == nil && t.std && root.Count() != uint64(len(docs)) {
+						f = &finding{msg: fmt.Sprintf("count = %d, the query selects %d documents", root.Count(), len(docs))}
+					}
+					if f != nil {
+						res.Key = skey
+						if phase == "faulted" {
+							res.Failure = fmt.Sprintf("%s: with the file of segment %d unreadable the search returned normally, but its aggregations are not those of the whole match set: %s   [documents: %s; the query selects %d of them]", skey, victim, f.msg, describeDocs(list), len(docs))
+						} else {
+							res.Failure = fmt.Sprintf("%s: (intact index) %s", skey, f.msg)
+						}
+						return false
+					}
+				}
+			}
+		}
+		return true
+	}
+	if !run("healthy") {
+		return res
+	}
+	if err := sf.files[victim].Close(); err != nil {
+		res.Failure, res.Key = "harness: closing the segment file: "+err.Error(), "harness"
+		return res
+	}
+	if !run("faulted") {
+		return res
+	}
+	res.Outcome = fmt.Sprintf("%s err=%d ok=%d", where, res.Counts["faulted_searches_that_returned_an_error"], res.Counts["faulted_searches_that_returned_a_result"])
+	if idx%17 == 0 {
+		res.Sample = map[string]interface{}{"enumeration": "read-fault", "documents": describeDocs(list), "closed_segment": victim,
+			"faulted_searches_error": res.Counts["faulted_searches_that_returned_an_error"], "faulted_searches_exact_result": res.Counts["faulted_searches_that_returned_a_result"]}
+	}
+	return res
+}
+
 func fullMaxScore(r *bluge.Reader, q bluge.Query) float64 {
 	mx := 0.0
 	verifmc.Quiet(func() {
@@ -1018,12 +1535,13 @@ func main() {
 	log.SetOutput(io.Discard)
 	debug.SetGCPercent(400)
 	explore.RegisterEnum("c16-aggregations", total, eval)
+	explore.RegisterEnum("c16-read-fault", faultTotal, faultEval)
 	explore.WorkerMain()
 	c := checkmain.New("C16")
 	if v := c.IsReplay(); v != nil {
 		c.RunReplay(v)
 	}
-	c.Rule = "every multiset of <=3 (thorough <=4) documents from an 8-document alphabet (single-valued, multi-valued, missing numeric/date/keyword values, negative number, pre-1970 date, zero weight) in two segments (thorough: also in one segment and in one segment per document) x 25 aggregation trees (every metric at top level, the standard aggregations, terms(k) of sizes 1,2,10 alone and > every metric, numeric ranges alone / > metrics of the ranged field / > metrics of other fields, date ranges alone / > every metric, ranges holding two values of one document, and five trees that name a field more than once) x 4 queries (match-all, term, boolean excluding one document, match-none) x 48 + 5*(documents+2) search settings ((n,from) in {0,1,2,5}^2 (thorough {0,1,2,5,11}^2) x 3 sort orders (score, a numeric field no aggregation reads, -_id), After (n in 0,1,5) and Before (n in 1,5) under sort _id with every document's key and the two outer keys); an evaluation (one search) is non-trivial when the query selects at least one document"
+	c.Rule = "every multiset of <=3 (thorough <=4) documents from an 8-document alphabet (single-valued, multi-valued, missing numeric/date/keyword values, negative number, pre-1970 date, zero weight) in two segments (thorough: also in one segment and in one segment per document) x 39 aggregation trees (every metric at top level, the standard aggregations, terms(k) of sizes 1,2,10 alone and > every metric, numeric ranges alone / > metrics of the ranged field / > metrics of other fields, date ranges alone / > every metric, ranges holding two values of one document, five trees that name a field more than once, and fourteen trees over FilterText/FilterNumeric/FilterDate sources (two predicates per kind, one rejecting the earlier and one the later value of the multi-valued documents) with cardinality/terms/ranges/date ranges/metrics over the unfiltered same field nested inside the filtered aggregation or standing next to it) x 4 queries (match-all, term, boolean excluding one document, match-none) x 48 + 5*(documents+2) search settings ((n,from) in {0,1,2,5}^2 (thorough {0,1,2,5,11}^2) x 3 sort orders (score, a numeric field no aggregation reads, -_id), After (n in 0,1,5) and Before (n in 1,5) under sort _id with every document's key and the two outer keys); an evaluation (one search) is non-trivial when the query selects at least one document; read-fault: every 2-document multiset and the 3-document multisets over the first four letters, one segment per document, in a real FileSystemDirectory on tmpfs read with index.LoadMMapNever, x every segment whose file is closed after OpenReader x 3 trees x 3 queries x 18 settings ((n,from) in {0,2,5}x{0,1}, 3 sort orders) plus After/Before with every key, first on the intact reader (must be exact), then with the file closed (non-trivial: the search returned a result, which must be exact)"
 	c.Explanation = "bounded-exhaustive enumeration through Reader.Search; oracle = direct computation over the documents the query selects by its meaning (exact: all values are small integers), bucket counts = documents with a value in the bucket, terms buckets a valid top-size choice with other = matches - returned for single-valued matches, cardinality = estimate of a fresh hyperloglog.New16 fed the same terms, quantiles within [min,max] and non-decreasing in rank, and the printed results identical across all settings of one (corpus, tree, query)"
 	c.Assumptions = []string{
 		"min, max, average, weighted average over no values (or zero total weight) have no prescribed value; they only have to be the same under every search setting",
@@ -1031,20 +1549,37 @@ func main() {
 		"cardinality and terms are exercised on the keyword field only (a numeric field's document values also hold its precision-step terms)",
 		"which of several equally frequent terms fills the last terms bucket is not prescribed; it has to be one of them",
 		"a bucket holds documents: a document with two values in one range is expected to be counted once",
+		"read-fault: a search that returns an error makes no claim; a search that returns normally claims aggregations over every match (a read error that is swallowed is a violation, an error is not)",
+		"FilterGeoPoint has no aggregation that consumes it and is not exercised",
 	}
-	st := explore.Enumerate(explore.EnumConfig{Name: "c16-aggregations", Param: c.Tier, Budget: c.PickD(45*time.Second, 8*time.Minute), Chunk: int64(len(trees)), MaxViol: 1 << 20})
-	c.AddEnum(st)
-	if os.Getenv("VERIF_KEYS") != "" { // diagnostic: the distinct keys of all violations
-		n := map[string]int64{}
-		for _, v := range st.Violations {
-			n[v.Key]++
+	budget := func(q, t time.Duration) time.Duration {
+		if v, err := strconv.Atoi(os.Getenv("VERIF_BUDGET")); err == nil && v > 0 { // diagnostic: seconds per enumeration
+			return time.Duration(v) * time.Second
 		}
-		for _, k := range explore.SortedKeys(n) {
-			fmt.Printf("KEY %4d  %s\n", n[k], k)
-		}
-		for _, v := range st.Violations {
-			if strings.Contains(v.Key, os.Getenv("VERIF_KEYS")) {
-				fmt.Println("FAILURE", v.Choices, v.Failure)
+		return c.PickD(q, t)
+	}
+	for _, e := range []struct {
+		name  string
+		q, t  time.Duration
+		chunk int64
+	}{
+		{"c16-aggregations", 28 * time.Second, 8 * time.Minute, 13},
+		{"c16-read-fault", 6 * time.Second, 30 * time.Second, 1},
+	} {
+		st := explore.Enumerate(explore.EnumConfig{Name: e.name, Param: c.Tier, Budget: budget(e.q, e.t), Chunk: e.chunk, MaxViol: 1 << 20})
+		c.AddEnum(st)
+		if os.Getenv("VERIF_KEYS") != "" { // diagnostic: the distinct keys of all violations
+			n := map[string]int64{}
+			for _, v := range st.Violations {
+				n[v.Key]++
+			}
+			for _, k := range explore.SortedKeys(n) {
+				fmt.Printf("KEY %4d  %s\n", n[k], k)
+			}
+			for _, v := range st.Violations {
+				if strings.Contains(v.Key, os.Getenv("VERIF_KEYS")) {
+					fmt.Println("FAILURE", v.Choices, v.Failure)
+				}
 			}
 		}
 	}
